@@ -326,3 +326,29 @@ func stepAt(input string, pos int) string {
 	}
 	return k
 }
+
+func init() {
+	fw.DebugCmds["lex"] = func(args []string) {
+		in := args[0]
+		for b := 0; b <= len(in); b++ {
+			r := escan.Exec(in, b)
+			fmt.Printf("%3d %q key=%s\n", b, in[:b], r.KeyAt)
+		}
+		r := escan.Exec(in, len(in))
+		fmt.Println("lexemes:", r.Lex, "err:", r.Err, "panic:", r.Panic)
+		if r.Err == "" && r.Panic == "" {
+			fmt.Println("oracle:", checkLexemes(in, r.Lex))
+		}
+	}
+}
+
+func init() {
+	fw.DebugCmds["scanstates"] = func(args []string) {
+		g, _ := escan.Explore(escan.Alphabet(false), nil, 400000, nil)
+		for i, k := range g.Keys {
+			if strings.Contains(k, args[0]) {
+				fmt.Printf("%q  <- %q\n", k, g.Rep[i])
+			}
+		}
+	}
+}
